@@ -213,8 +213,8 @@ def build_evidence(pid, cfg, tier, seed, results, kani_results, violations, know
                 trusted.append(t)
         rewrites += [{"unit": r.name, **w} for w in r.rewrites if w["rule"] not in ("R0", "R4")]
     for kr in kani_results:
-        n_obl += kr.get("checks", 1)
-        n_dis += kr.get("checks", 1) - kr.get("failed", 0) if kr["status"] != "undecided" else 0
+        n_obl += 1
+        n_dis += 1 if kr["status"] == "ok" else 0
         obligations.append({"name": "kani::%s" % kr["harness"], "backend": "kani/cbmc", "discharged": kr["status"] == "ok",
                             "checks": kr.get("checks"), "bounded": kr.get("bounded"), "wall_s": kr.get("wall_s")})
         cmds.append(kr.get("cmd", ""))
